@@ -141,8 +141,8 @@ pub fn cfg_strategy(p: Profile, thorough: bool) -> BoxedStrategy<Cfg> {
     // a second relationship type in half of the configurations that have hierarchies
     let offset = prop_oneof![6 => Just(0u16), 3 => 40u16..70, 1 => 8170u16..8200];
     let fns = prop_oneof![5 => Just(0u8), 2 => Just(1u8), 2 => Just(2u8), 1 => Just(3u8)];
-    let inner = (cfg_strategy_inner(p, thorough), any::<bool>(), offset, proptest::bool::weighted(0.3), fns)
-        .prop_map(move |(c, o, entity_offset, markers, custom_fns)| Cfg { owners: (o || matches!(p, Profile::Related)) && c.children, entity_offset, markers, custom_fns, ..c })
+    let inner = (cfg_strategy_inner(p, thorough), any::<bool>(), offset, proptest::bool::weighted(0.3), fns, proptest::bool::weighted(0.3))
+        .prop_map(move |(c, o, entity_offset, markers, custom_fns, split_plugins)| Cfg { split_plugins, owners: (o || matches!(p, Profile::Related)) && c.children, entity_offset, markers, custom_fns, ..c })
         .boxed();
     if matches!(p, Profile::Events | Profile::Events3 | Profile::Sessions | Profile::Auth | Profile::Lossy | Profile::Split | Profile::Tracked) {
         (inner, varint_edge_start())
